@@ -730,9 +730,20 @@ func c12ConcOne(env *fw.Env, i int64) {
 	// slices returned BEFORE the readers start, obtained without touching lazily memoized state:
 	// raw-frame messages: ToBytes / AppendBodyTo never decode; constructed messages: the harness'
 	// own handle on the item (the message body has not been encoded yet); items: a full snapshot.
+	// Every second case is COLD: nothing at all is called on the object before the barrier, so the readers' calls are
+	// the very first ones on it (the pre-reader snapshot below necessarily sizes and encodes a constructed item once,
+	// which would hide any lazily memoized state that is filled without synchronisation).
+	cold := (i/int64(len(c12ConcProvs)))%2 == 1
+	if cold {
+		env.Event("concurrent_cases_cold", 1)
+	}
 	var pre snapshot.Outputs
 	dm, isData := obj.(*hsms.DataMessage)
-	switch v := obj.(type) {
+	var probe any = obj
+	if cold {
+		probe = nil
+	}
+	switch v := probe.(type) {
 	case secs2.Item:
 		s, _ := c12Snap(v, opt)
 		if s != nil {
